@@ -1,4 +1,5 @@
 use super::Style;
+use std::borrow::Cow;
 
 /// Specifies the format for outputing css.
 ///
@@ -30,12 +31,15 @@ impl Format {
     }
 
     /// Get a newline followed by len spaces, unles self is compressed.
-    pub fn get_indent(&self, len: usize) -> &'static str {
+    pub fn get_indent(&self, len: usize) -> Cow<'static, str> {
         static INDENT: &str = "\n                                                                                ";
         if self.is_compressed() {
-            ""
+            "".into()
+        } else if let Some(indent) = INDENT.get(..=len) {
+            indent.into()
         } else {
-            &INDENT[..=len]
+            // Deeper than the preallocated indent; build it.
+            format!("\n{}", " ".repeat(len)).into()
         }
     }
 }
